@@ -123,7 +123,7 @@ Section Maxlen.
   Lemma format_constraint_cases : forall d ix cv g env s,
     format_constraint d ix cv g env = Ok (Some s) ->
     exists tr nm, render tr nm (max_for d ix) (d_maxid d) = Ok s
-                  /\ (tr = false -> exists p, g = GPlain p).
+                  /\ (tr = false -> g = GPlain nm).
   Proof.
     intros d ix cv g env s H. unfold Trunc.format_constraint in H. destruct g.
     - discriminate.
@@ -131,7 +131,7 @@ Section Maxlen.
       destruct (render true nm _ _) eqn:E; try discriminate. inversion H; subst.
       exists true, nm. split; [exact E|discriminate].
     - destruct (render false s0 _ _) eqn:E; try discriminate. inversion H; subst.
-      exists false, s0. split; [exact E|eauto].
+      exists false, s0. split; [exact E|reflexivity].
     - destruct (render true s0 _ _) eqn:E; try discriminate. inversion H; subst.
       exists true, s0. split; [exact E|discriminate].
   Qed.
@@ -151,14 +151,15 @@ Section Maxlen.
   Qed.
 
   Lemma ddl_name_cases : forall d ix cv g env s, ddl_name d ix cv g env = Ok (Some s) ->
-    exists tr nm, render tr nm (max_for d ix) (d_maxid d) = Ok s /\ (tr = false -> plain_path cv g = true).
+    exists tr nm, render tr nm (max_for d ix) (d_maxid d) = Ok s
+                  /\ (tr = false -> plain_path cv g = true /\ g = GPlain nm).
   Proof.
     intros d ix cv g env s H. unfold Trunc.ddl_name in H.
     destruct (attach_name cv g env) as [g'|] eqn:A; [|discriminate].
     destruct (format_constraint d ix cv g' env) as [[r|]|] eqn:F; try discriminate.
     - inversion H; subst. destruct (format_constraint_cases _ _ _ _ _ _ F) as (tr & nm & Hr & Hp).
-      exists tr, nm. split; [exact Hr|]. intro Ht. destruct (Hp Ht) as (p & ->).
-      apply attach_plain in A. tauto.
+      exists tr, nm. split; [exact Hr|]. intro Ht. rewrite (Hp Ht) in A.
+      apply attach_plain in A. destruct A as (-> & A). auto.
     - destruct ix; discriminate.
   Qed.
 
@@ -173,17 +174,42 @@ Section Maxlen.
   (* ... and within the more specific max_index_name_length / max_constraint_name_length unless it is a
      user-given plain name on a dialect whose specific limit is below max_identifier_length *)
   Definition specific_guard (d : dialect) (ix : bool) (cv : option (list token)) (g : gname) : bool :=
-    negb (plain_path cv g) || (d_maxid d <=? max_for d ix).
+    negb (plain_path cv g) || (d_maxid d <=? max_for d ix)
+    || match g with GPlain p => slen p <=? max_for d ix | _ => true end.
 
   Lemma ddl_name_within_specific : forall d ix cv g env s, dialect_ok d = true ->
     specific_guard d ix cv g = true ->
     ddl_name d ix cv g env = Ok (Some s) -> slen s <= max_for d ix.
   Proof.
     intros d ix cv g env s Hd Hg H. destruct (ddl_name_cases _ _ _ _ _ _ H) as (tr & nm & Hr & Hp).
-    destruct (dialect_ok_spec d Hd ix). eapply render_bounded; eauto.
-    unfold specific_guard in Hg. apply orb_true_iff in Hg. destruct Hg as [Hg|Hg].
-    - left. destruct tr; auto. rewrite (Hp eq_refl) in Hg. discriminate.
-    - right. apply Z.leb_le in Hg. exact Hg.
+    destruct (dialect_ok_spec d Hd ix).
+    unfold specific_guard in Hg. rewrite !orb_true_iff in Hg. destruct Hg as [[Hg|Hg]|Hg].
+    - eapply render_bounded; eauto. left. destruct tr; auto. destruct (Hp eq_refl) as (Hpp & _).
+      rewrite Hpp in Hg. discriminate.
+    - eapply render_bounded; eauto. right. apply Z.leb_le in Hg. exact Hg.
+    - destruct tr.
+      + eapply render_bounded; eauto.
+      + destruct (Hp eq_refl) as (_ & ->). apply Z.leb_le in Hg.
+        unfold truncate_and_render_maxlen_name in Hr. destruct (ident_too_long (slen nm) (d_maxid d)); [discriminate|].
+        inversion Hr; subst. exact Hg.
+  Qed.
+
+  (* the guard excludes exactly the defective region *)
+  Lemma specific_guard_exact : forall d ix cv p env, dialect_ok d = true ->
+    specific_guard d ix cv (GPlain p) = false -> slen p <= d_maxid d ->
+    ddl_name d ix cv (GPlain p) env = Ok (Some p) /\ max_for d ix < slen p.
+  Proof.
+    intros d ix cv p env Hd Hg Hl. unfold specific_guard in Hg. rewrite !orb_false_iff in Hg.
+    destruct Hg as ((Hp & _) & Hs). apply negb_false_iff in Hp. apply Z.leb_gt in Hs. split; [|exact Hs].
+    unfold Trunc.ddl_name, attach_name, constraint_name_for_table. unfold plain_path in Hp.
+    assert (A : (match cv with
+                 | Some tpl => if false || mentions_cname tpl
+                               then match expand (GPlain p) env tpl with Raise e => Raise e | Ok s => Ok (Some s) end
+                               else Ok None
+                 | None => Ok None end) = Ok None).
+    { destruct cv as [tpl|]; [|reflexivity]. apply negb_true_iff in Hp. cbn [orb]. rewrite Hp. reflexivity. }
+    rewrite A. unfold Trunc.format_constraint, truncate_and_render_maxlen_name, ident_too_long.
+    destruct (slen p >? d_maxid d) eqn:E; [apply Z.gtb_lt in E; lia|]. reflexivity.
   Qed.
 
   (* the errors of the pipeline are the documented ones, with their causes *)
